@@ -48,6 +48,17 @@ func (sh *Shared) resolveIntrinsic(fn *ssa.Function) intrinsicFn {
 	if f, ok := intrinsicTable[name]; ok {
 		return f
 	}
+	// environment stubs written in Go in a harness file: the callee is replaced by the harness function
+	if tgt, ok := redirectTable[name]; ok {
+		if p := sh.prog.ImportedPackage(tgt[0]); p != nil {
+			if target := p.Func(tgt[1]); target != nil {
+				return func(ex *Exec, fn *ssa.Function, args []Value) Value { return ex.call(target, args, nil) }
+			}
+		}
+		return func(ex *Exec, fn *ssa.Function, args []Value) Value {
+			panic(pathAbort{"UNSUPPORTED " + fn.String() + ": harness stub " + tgt[1] + " not loaded"})
+		}
+	}
 	switch {
 	case strings.HasPrefix(name, "(*log/slog.Logger)."):
 		if fn.Name() == "With" || fn.Name() == "WithGroup" {
@@ -66,6 +77,13 @@ func (sh *Shared) resolveIntrinsic(fn *ssa.Function) intrinsicFn {
 }
 
 func retZero(ex *Exec, fn *ssa.Function, args []Value) Value { return zeroResults(fn) }
+
+// redirectTable: library entry points replaced by a stub written in Go in the harness of the named package
+// (package path, function). The stub is part of the claim and is listed in the check's evidence.
+var redirectTable = map[string][2]string{
+	"(*github.com/gorilla/websocket.Conn).NextReader":   {"github.com/mochi-mqtt/server/v2/listeners", "vStubWsNextReader"},
+	"(*github.com/gorilla/websocket.Conn).WriteMessage": {"github.com/mochi-mqtt/server/v2/listeners", "vStubWsWriteMessage"},
+}
 
 // lookupMethod returns the exported method name of type t, or nil if t has no such method.
 func (ex *Exec) lookupMethod(t types.Type, name string) *ssa.Function {
@@ -917,26 +935,36 @@ func init() {
 	T["runtime.Gosched"] = func(ex *Exec, fn *ssa.Function, args []Value) Value { ex.syncPoint("gosched"); return nil }
 	T["os.Exit"] = func(ex *Exec, fn *ssa.Function, args []Value) Value { panic(&goPanic{msg: "os.Exit called"}) }
 	T["bufio.NewReaderSize"] = func(ex *Exec, fn *ssa.Function, args []Value) Value {
-		c, _ := args[0].(Iface).v.(*ConnV)
-		return Ptr{obj: &Obj{v: &BufRd{conn: c}}}
+		rd := args[0].(Iface)
+		if c, ok := rd.v.(*ConnV); ok || rd.t == nil {
+			return Ptr{obj: &Obj{v: &BufRd{conn: c}}}
+		}
+		size := 4096
+		if len(args) > 1 {
+			size = ex.concretize(args[1].(*Term), 0, 1<<20, true)
+			if size < 16 {
+				size = 16
+			}
+		}
+		return Ptr{obj: &Obj{v: &BufRd{rd: rd, size: size}}}
 	}
 	T["bufio.NewReader"] = T["bufio.NewReaderSize"]
 	T["(*bufio.Reader).ReadByte"] = func(ex *Exec, fn *ssa.Function, args []Value) Value {
 		r := args[0].(Ptr).obj.v.(*BufRd)
-		b, err := r.conn.readByte(ex)
+		b, err := r.readByte(ex)
 		return Tuple{b, err}
 	}
 	T["io.ReadFull"] = func(ex *Exec, fn *ssa.Function, args []Value) Value {
 		dst := args[1].(Slice)
 		rd := args[0].(Iface)
-		var c *ConnV
+		var c *BufRd
 		switch x := rd.v.(type) {
 		case Ptr:
 			if br, ok := x.obj.v.(*BufRd); ok {
-				c = br.conn
+				c = br
 			}
 		case *ConnV:
-			c = x
+			c = &BufRd{conn: x}
 		}
 		if c == nil {
 			panic(pathAbort{"UNSUPPORTED io.ReadFull reader " + fmt.Sprintf("%T", rd.v)})
